@@ -3,6 +3,7 @@ package sigrpc
 import (
 	"context"
 	"sync"
+	"sync/atomic"
 
 	signaling "github.com/aperturerobotics/bifrost/signaling/rpc"
 	signaling_rpc_server "github.com/aperturerobotics/bifrost/signaling/rpc/server"
@@ -17,12 +18,16 @@ type bridge struct {
 	// drop[p][kind] = number of server->client messages of that kind to drop for identity p
 	drop    map[int]map[string]int
 	dropped int
+	// lingering: relay-side calls whose client side is gone (half-open)
+	lingering []*bridgeConn
 }
 
 type bridgeConn struct {
 	who int
 	cli *cliSession
 	srv *srvSession
+	// halfOpen: the client's side failed, the relay has not noticed (its call stays until replaced or stopped)
+	halfOpen atomic.Bool
 }
 
 func newBridge() *bridge {
@@ -69,7 +74,9 @@ func (r *bridgeRelay) Session(ctx context.Context) (signaling.SRPCSignaling_Sess
 	// when the client closes its side, the server call ends
 	go func() {
 		<-cli.ctx.Done()
-		ss.cancel()
+		if !conn.halfOpen.Load() {
+			ss.cancel()
+		}
 	}()
 	r.b.mu.Lock()
 	r.b.conns[r.who] = append(r.b.conns[r.who], conn)
@@ -86,6 +93,24 @@ func (b *bridge) cut(p int) {
 	b.mu.Unlock()
 	for _, c := range cs {
 		c.srv.cancel()
+		select {
+		case c.cli.toClient <- nil:
+		default:
+		}
+		c.cli.cancel()
+	}
+}
+
+// halfcut fails every current connection of identity p on the client's side only: the client sees its stream
+// break and retries, while the relay still considers the old call attached (until the retry replaces it).
+func (b *bridge) halfcut(p int) {
+	b.mu.Lock()
+	cs := b.conns[p]
+	b.conns[p] = nil
+	b.lingering = append(b.lingering, cs...)
+	b.mu.Unlock()
+	for _, c := range cs {
+		c.halfOpen.Store(true)
 		select {
 		case c.cli.toClient <- nil:
 		default:
@@ -116,6 +141,7 @@ func (b *bridge) stopAll() {
 	for _, cs := range b.conns {
 		all = append(all, cs...)
 	}
+	all = append(all, b.lingering...)
 	b.mu.Unlock()
 	for _, c := range all {
 		c.srv.cancel()
